@@ -284,7 +284,13 @@ def grad_diff(ans, a, n=1, axis=-1):
             return g
         return helper(undiff(g), n - 1)
 
-    return lambda g: helper(g, n)
+    def vjp(g):
+        if anp.shape(a)[axis] < n:
+            # fewer than n + 1 points along the axis: the result is empty, whatever a is
+            return anp.zeros(anp.shape(a))
+        return helper(g, n)
+
+    return vjp
 
 
 defvjp(anp.diff, grad_diff)
